@@ -323,5 +323,15 @@ func TestReplay(t *testing.T) {
 		checkMonitorCase(t, r.Property, r.Kind, c, p)
 	case "C04":
 		checkC04Units(t, []Case{c}, []*winterp.Program{p})
+	case "C05":
+		tl, err := getTool()
+		if err != nil {
+			t.Fatalf("INTERNAL: %v", err)
+		}
+		csrc, err := tl.GenC(c.Pkg, []byte(c.Src))
+		if err != nil {
+			t.Fatalf("wuffs-c gen: %v", err)
+		}
+		checkC05Units(t, tl, []wdrv.Unit{{Prog: p, CSource: csrc, Histories: c.Histories}}, []Case{c})
 	}
 }
